@@ -18,7 +18,7 @@ EXPLANATION = (
     "counts 1,2,3; (WIRE) HiArgs::walk_builder passes each WalkBuilder option the specified boolean formula "
     "(truth-table exact) and from_low_args copies same-named fields; (OPTS) builder forwarders and option->file-name "
     "pairing; (EXPLICIT) explicit paths bypass filters. What one ignore file means (C04) and glob semantics (C12) "
-    "are not decided here.")
+    "are not decided here. (NEAREST also decides cross-source independence: whether a source is consulted at a directory never depends on what another source matched.)")
 NOT_DECIDED = ["what a single ignore file means (C04)", "-g/-t glob semantics (C12)",
                "path re-basing for parent directories (strip_prefix arithmetic)"]
 
